@@ -168,6 +168,14 @@ Proof.
   - destruct (par_linv_next St Rinit O R T D R' N' true Hl Hit) as [Hn _]. exact (IH Rinit R Hn).
 Qed.
 
+(* every iteration start the loop can reach satisfies the loop invariant *)
+Lemma par_loop_reach_linv : forall St T D R T2 D2 R2, par_lat_loop_reach I islat jm sc St T D R T2 D2 R2 ->
+  forall Rinit O, linv St Rinit O R T D -> exists O2, linv St Rinit O2 R2 T2 D2.
+Proof.
+  intros St T D R T2 D2 R2 H. induction H as [T D R | T D R R' N' ch' T2 D2 R2 Hit Hr IH]; intros Rinit O Hl; [eauto|].
+  destruct (par_linv_next St Rinit O R T D R' N' ch' Hl Hit) as [Hn _]. exact (IH Rinit R Hn).
+Qed.
+
 Lemma par_run_scc_spec : forall (st st' : @lstate V), rows_ok (l_rows st) ->
   (forall r i, i < length (l_rows st r) -> In i (l_stored st r)) ->
   par_lat_run_scc I islat jm sc st st' ->
@@ -272,10 +280,68 @@ Proof.
   - apply (rle_refl I islat lle). exact A3.
   - intros j ru i _ _ Hlt. lia.
 Qed.
+
+Lemma par_run_sccs_prefix_GI : forall todo done rest st st',
+  pl = done ++ todo ++ rest -> GI J Rin (length done) st -> par_lat_run_sccs I islat jm todo st st' ->
+  GI J Rin (length (done ++ todo)) st'.
+Proof.
+  intros todo done rest st st' Hpl HG Hrun. revert done Hpl HG.
+  induction Hrun as [st|sc todo st st1 st2 H1 Hrest IH]; intros done Hpl HG.
+  - rewrite app_nil_r. exact HG.
+  - replace (done ++ sc :: todo) with ((done ++ [sc]) ++ todo) by (rewrite <- app_assoc; reflexivity).
+    apply (IH (done ++ [sc])).
+    + rewrite <- app_assoc. exact Hpl.
+    + rewrite app_length. cbn [length]. replace (length done + 1) with (S (length done)) by lia.
+      apply (par_GI_step (length done) sc st st1); [|exact HG | exact H1].
+      rewrite Hpl, nth_error_app2, Nat.sub_diag; [reflexivity | lia].
+Qed.
 End WithJ.
 
 Variable Rin : rel -> list (vtuple V).
 Hypothesis Hin : input_ok Rin.
+
+(* every iteration start a parallel run can reach (after any number of completed SCCs and any number of parallel iterations of
+   the next one): the rows are below every directed closed set above the input, there is one row per key and total / delta
+   list every row of the dynamic relations - the preconditions of LatParIter.par_lat_no_deadlock *)
+Theorem par_lat_intermediate : forall (J : db) pre sc rest st T2 D2 R2,
+  directed I islat lle J -> closedH I islat lle P J -> allbelow I islat lle J Rin ->
+  pl = pre ++ sc :: rest ->
+  par_lat_run_sccs I islat jm pre (update_indices Rin) st ->
+  par_lat_loop_reach I islat jm sc (l_stored st) (fun _ => []) (fun r => if is_dyn (s_dyn sc) r then l_stored st r else []) (l_rows st) T2 D2 R2 ->
+  allbelow I islat lle J R2
+  /\ (forall r, islat r = true -> NoDup (map tkey (R2 r)))
+  /\ (forall r i, is_dyn (s_dyn sc) r = true -> i < length (R2 r) -> In i (T2 r) \/ In i (D2 r)).
+Proof.
+  intros J pre sc rest st T2 D2 R2 HJd HJc Hb Hpl Hrun Hreach. destruct Hin as [A1 [A2 A3]].
+  assert (H0 : GI J Rin (length (@nil pscc)) (update_indices Rin)).
+  { unfold LatMain.GI, update_indices. cbn [l_rows l_stored length]. split; [constructor; auto|]. split; [|split].
+    - intros r i Hi. apply in_seq. lia.
+    - apply (rle_refl I islat lle). exact A3.
+    - intros j ru i _ _ Hlt. lia. }
+  pose proof (par_run_sccs_prefix_GI J HJd HJc Rin pre [] (sc :: rest) _ st Hpl H0 Hrun) as [HR [Hst _]].
+  assert (Hn : nth_error pl (length pre) = Some sc) by (rewrite Hpl, nth_error_app2, Nat.sub_diag; [reflexivity | lia]).
+  pose proof (SemiNaive.val_scc_ok arities P pl Hval _ sc Hn) as Hok.
+  pose proof (linv_start I islat lle arities P J sc st HR Hst) as Hl.
+  destruct (par_loop_reach_linv I Heq islat lle jm Hlaws arities Hfun (Hlat1 islat arities pl Hlatplan) P Hnoagg Hmono J HJd HJc sc Hok
+              (Hlatok islat arities pl Hlatplan _ sc Hn) _ _ _ _ _ _ _ Hreach _ _ Hl) as [O2 [HR2 Hcov2 _ _ _ _ _]].
+  split; [apply (ro_below _ _ _ _ _ _ HR2)|]. split; [apply (ro_key _ _ _ _ _ _ HR2) | exact Hcov2].
+Qed.
+
+(* ... hence no deadlock anywhere in a parallel run: in every state of every iteration a run can reach - any contributions, any
+   schedule - a lattice relation whose head updates are not finished has a worker that can perform a step *)
+Theorem par_lat_run_no_deadlock : forall pre sc rest st T2 D2 R2 (mx : rel -> list V -> nat) kfirst work sched r,
+  pl = pre ++ sc :: rest ->
+  par_lat_run_sccs I islat jm pre (update_indices Rin) st ->
+  par_lat_loop_reach I islat jm sc (l_stored st) (fun _ => []) (fun r => if is_dyn (s_dyn sc) r then l_stored st r else []) (l_rows st) T2 D2 R2 ->
+  latdyn islat sc r = true ->
+  let s := grun I jm T2 D2 R2 mx kfirst (ginit I R2 work) sched r in
+  ParLat.finished s = false -> exists j, ParLat.enabled (mx r) s j = true.
+Proof.
+  intros pre sc rest st T2 D2 R2 mx kfirst work sched r Hpl Hrun Hreach Hr s F.
+  destruct (par_lat_intermediate (Jwf I islat lle) pre sc rest st T2 D2 R2 (Jwf_directed I islat lle jm Hlaws) (Jwf_closed I islat lle jm Hlaws P Hmono)
+              (rows_wf_below_Jwf I islat lle Rin (proj2 (proj2 Hin))) Hpl Hrun Hreach) as [_ [Hk Hc]].
+  exact (par_lat_no_deadlock I Heq islat jm sc T2 D2 R2 mx kfirst work sched r Hk Hc Hr F).
+Qed.
 
 Theorem par_lat_run_sound : forall (J : db) st,
   directed I islat lle J -> closedH I islat lle P J -> allbelow I islat lle J Rin ->
